@@ -47,7 +47,14 @@ RATES = """RATES
  20 IF (moles > M) THEN moles = M
  30 SAVE moles
  -end
+ Zerou
+ -start
+ 10 moles = PARM(1) * TIME
+ 30 SAVE moles
+ -end
 """
+# (Zerou: the same zero-order rate without the rate's own clamp - when it asks for more than the reactant holds, the engine
+# has to stop at the amount that is left)
 # a pH-stat phase for the "alternative formula" form of EQUILIBRIUM_PHASES (the reactant added or removed is the
 # alternative formula, not the phase); defined once, with the rates
 RATES += "PHASES\n Fix_pH\n H+ = H+\n log_k 0\n"
@@ -146,7 +153,8 @@ PHSTAT = {
 PHSTAT["su:cd-music"] = ("su", "SURFACE 1\n -cd_music\n Goe_uni 0.0003 96 0.5\n Goe_tri 0.0002\n -capacitances 0.98 0.73\n -equilibrate 1\n")
 PHSTAT["ga:fixV-co2zero"] = ("ga", "GAS_PHASE 1\n -fixed_volume\n -volume 0.5\n -temperature 25\n CO2(g) 0\n N2(g) 0.5\n")      # lists a component with no moles
 PHSTAT["ga:fixP-co2zero"] = ("ga", "GAS_PHASE 1\n -fixed_pressure\n -pressure 1.0\n -volume 1.0\n -temperature 25\n CO2(g) 0\n N2(g) 1.0\n")
-KIN_STEPS = {"ki:calcite": 2, "ki:zero": 1}
+PHSTAT["ki:exhaust"] = ("ki", "KINETICS 1\n Zerou\n -formula NaCl 1\n -m 0.0001\n -parms 1e-6\n -tol 1e-8\n -steps 600\n")      # asks for 6e-4 mol of a 1e-4 mol reactant
+KIN_STEPS = {"ki:calcite": 2, "ki:zero": 1, "ki:exhaust": 1}
 # a cell without carbon and sulfur in an instance that has already equilibrated another water (3) with a CO2-bearing gas and
 # calcite + gypsum: reactants attached to cell 1 then list components whose elements the cell does not contain
 INIT["lean"] = RATES + PUNCH + """SOLUTION 1
@@ -509,6 +517,8 @@ def run_history(s, init, mode, ops, judge_from=None, dbname=DBNAME):
     for i, op in enumerate(ops):
         if op in PHSTAT:
             present.add(PHSTAT[op][0])
+            if PHSTAT[op][0] == "ki":
+                kin = op
         if op in ATTACH:
             present.add(ATTACH[op][0])
             if ATTACH[op][0] == "ki":
